@@ -58,6 +58,9 @@ pub struct Ev {
 static LOG_ON: AtomicBool = AtomicBool::new(false);
 static LOG: Mutex<Vec<Ev>> = Mutex::new(Vec::new());
 pub static VLD_MODE: AtomicU8 = AtomicU8::new(0);
+/// Added to every index hash the harness key builder produces (lockstep histories: so that the key
+/// universe 0..n lands on different residues - metric stripes, shards, sketch rows - per history).
+pub static INDEX_BASE: AtomicU64 = AtomicU64::new(0);
 pub static VETOES: AtomicU64 = AtomicU64::new(0);
 
 thread_local! {
@@ -193,10 +196,11 @@ pub struct Kb {
 
 impl Kb {
     pub fn pair(&self, k: u64) -> (u64, u64) {
+        let base = INDEX_BASE.load(Ordering::Relaxed);
         if self.collide {
-            (1000 + k / 2, if self.zero_even && k % 2 == 0 { 0 } else { k + 1 })
+            (base + 1000 + k / 2, if self.zero_even && k % 2 == 0 { 0 } else { k + 1 })
         } else {
-            (k, 0)
+            (base + k, 0)
         }
     }
 }
